@@ -181,7 +181,33 @@ func runC17(ctx *runCtx) {
 		}
 	}
 	cs := int64(0)
+	// screening pass: every implementation first runs inside the guarded arena (a buffer that ends 0..7 bytes before an
+	// inaccessible page, so every start alignment mod 8 occurs): an implementation that runs past its buffer there faults and is
+	// caught, and is then kept away from the ordinary heap, where the same defect would corrupt the harness itself
+	unsafeImpl := map[string]bool{}
 	for _, impl := range impls {
+		for _, l := range lens {
+			for gap := 0; gap < 8; gap++ {
+				if l > 300 && (l%8 != 0 || gap%2 == 0) && l%97 != 0 {
+					continue
+				}
+				cs++
+				nv := rep.nviol()
+				check(maskCase{Impl: impl, Len: l, Align: gap, Key: keys[int(cs)%len(keys)], Seed: ctx.seed + cs, Page: "after"})
+				if rep.nviol() > nv {
+					unsafeImpl[impl] = true
+				}
+			}
+			if unsafeImpl[impl] {
+				break
+			}
+		}
+	}
+	for _, impl := range impls {
+		if unsafeImpl[impl] {
+			rep.count("heap-grid-skipped:" + impl)
+			continue
+		}
 		for _, l := range lens {
 			for _, a := range aligns {
 				cs++
@@ -210,6 +236,9 @@ func runC17(ctx *runCtx) {
 		n3 = 60000
 	}
 	for _, impl := range impls {
+		if unsafeImpl[impl] {
+			continue
+		}
 		for l := 1; l <= l2; l++ {
 			for s := 0; s <= l; s++ {
 				cs++
